@@ -555,6 +555,25 @@ Definition integrate_mc_throwing (s : vstate) (m : method) (f : list T -> T) (re
 (** ** A call history: the calls of Integrate_MC made one after the other in one process, each with its own generator (seed), some
     of them brought to an end early.  [hcall]: the stream of the call, method, integrand, region, budget, n as above. *)
 Record hcall := mkH { h_us : Z -> T; h_m : method; h_f : list T -> T; h_region : list T; h_ncalls : Z; h_n : Z }.
+
+(** ** Sample_Uniform(PRNG, x_min, x_max) of the Statistics facility, on which all three integrators are built (they call it with the default
+    limits 0, 1):
+<<
+	std::uniform_real_distribution<double> dis(x_min, x_max);
+	return dis(PRNG);
+>>
+    libstdc++: operator() returns  generate_canonical(PRNG) * (b - a) + a.  The distribution object is a local of the call: nothing survives it. *)
+Definition sample_uniform (pos : Z) (a b : T) : T := (us pos * (b - a) + a)%num.
+(** successive draws from one generator, each with limits of its own (an isotropic direction: (0, 2 pi) then (-1, 1); rejection sampling: (xMin, xMax) then (0, yMax)) *)
+Fixpoint sample_uniforms (ranges : list (T * T)) (pos : Z) : list T :=
+  match ranges with
+  | [] => []
+  | (a, b) :: rest => sample_uniform pos a b :: sample_uniforms rest (pos + 1)
+  end.
+
+(** What happens in a process before the observed call: calls of Integrate_MC, and uses of the sampling facility the integrators draw from
+    ([e_us]: the stream of the caller's generator, [e_ranges]: the limits of the successive draws). *)
+Inductive hevent := E_call (c : hcall) | E_draws (e_us : Z -> T) (e_ranges : list (T * T)).
 End Model.
 
 Section History.
@@ -566,5 +585,19 @@ Fixpoint run_history (s : @vstate T) (h : list (@hcall T)) : res (@vstate T) :=
   | c :: h' =>
       let* r := integrate_mc_throwing Ops (h_us c) s (h_m c) (h_f c) (h_region c) (h_ncalls c) (h_n c) in
       run_history (snd r) h'
+  end.
+
+(** one event: the statics it leaves behind and the numbers it hands to its caller (the draws; nothing for an integration, whose value is not needed here) *)
+Definition run_event (s : @vstate T) (e : @hevent T) : res (@vstate T * list T) :=
+  match e with
+  | E_call c =>
+      let* r := integrate_mc_throwing Ops (h_us c) s (h_m c) (h_f c) (h_region c) (h_ncalls c) (h_n c) in
+      Ok (snd r, [])
+  | E_draws dus ranges => Ok (s, sample_uniforms Ops dus ranges 0)
+  end.
+Fixpoint run_events (s : @vstate T) (h : list (@hevent T)) : res (@vstate T) :=
+  match h with
+  | [] => Ok s
+  | e :: h' => let* r := run_event s e in run_events (fst r) h'
   end.
 End History.
